@@ -39,13 +39,17 @@ LEVEL_TEXT = {
 }
 
 PROPS["C02"] = {
-    "targets": [rt("props/C02_lost_wakeup.cpp", 1500, 70, 20000, 900)],
+    "targets": [rt("props/C02_lost_wakeup.cpp", 1500, 70, 20000, 900),
+                rt("props/C02_group_wakeup.cpp", 150, 45, 4000, 600, shards=6)],
     "rule": "case = scheduler config (1..8 workers, 8 policies, CPU restriction) with a MANDATORY perturbation plan at the hand-off sites "
             "(cv wait between unlock and suspend, do_yield, after the coroutine returned / store_state, set_thread_state before CAS / before "
             "schedule, set_active_state helper, notify, join, exit callbacks) x 1..6 ping-pong channels (facility in semaphore / cv+mutex / "
             "cv_any+spinlock / latch / event / thread::join / sync_wait; waker on a task or a plain OS thread; 1..60 rounds; hints; delays); "
             "non-trivial iff >=1 wake-up hit the active-target path (set_thread_state found the target still active and scheduled the "
-            "set_active_state helper task), observed through hooks; distinct by hash of the decoded case",
+            "set_active_state helper task), observed through hooks; distinct by hash of the decoded case. Second target (groups): 1..3 channels "
+            "with 2..6 waiter tasks blocked on ONE facility (semaphore, cv+mutex, cv_any+spinlock used as permit counters, latch, event) x "
+            "wake-ups issued one by one / all at once / 1+rest back to back by a task or OS thread, optionally only after all waiters are inside "
+            "their wait, x 1..30 rounds; non-trivial iff some round started with all waiters blocked",
     "floor": {"quick": 30, "thorough": 300},
     "assumptions": ["interleavings sampled with deliberate window widening, not enumerated",
                     "deadlock verdicts are state-based (quiescence detector), watchdog expiry is inconclusive"],
